@@ -138,3 +138,164 @@ def u_b_vecdist(ctx):
     if ctx.tier == "thorough":
         shapes += [(3, 1, 1), (3, 2, 0, (1, 1), (1, 3)), (3, 2, 1, (1, -1), (1, 1))]
     modeb.run_shapes(ctx, "vecdist", shapes, body, max_paths=5000)
+
+
+# ---------------------------------------------------------------------------------------------------
+# A2: the Pareto filter for point sets of every size (loop invariant over the shrinking survivor list)
+import numpy as _np
+from pyvc import loopcut, npmodel
+from pyvc.arr import EArr
+from pyvc.sym import fresh_int
+
+PARETO = "pybrops/core/util/pareto.py:is_pareto_efficient"
+
+
+def _forall(vs, body, *pats, alts=()):
+    """ForAll with the given pattern terms if they are usable as E-matching patterns (uninterpreted applications without ite)"""
+    def ok(t):
+        if not (z3.is_app(t) and t.decl().kind() == z3.Z3_OP_UNINTERPRETED and t.num_args() > 0):
+            return False
+        todo = list(t.children())
+        while todo:
+            x = todo.pop()
+            if z3.is_app(x) and x.decl().kind() in (z3.Z3_OP_ITE, z3.Z3_OP_AND, z3.Z3_OP_OR, z3.Z3_OP_NOT, z3.Z3_OP_LE, z3.Z3_OP_LT,
+                                                    z3.Z3_OP_GE, z3.Z3_OP_GT, z3.Z3_OP_EQ):
+                return False
+            todo.extend(x.children())
+        return True
+    groups = [g for g in ([pats] if pats else []) + list(alts) if g and all(ok(t) for t in g)]
+    if groups:
+        return z3.ForAll(vs, body, patterns=[z3.MultiPattern(*g) if len(g) > 1 else g[0] for g in groups])
+    return z3.ForAll(vs, body)
+
+
+def _pareto_loop(ctx, return_mask):
+    box = {}
+
+    def ghosts(e, W, npt, nobj):
+        """NLE(a, b): point b has a coordinate strictly greater than point a (so a does not weakly dominate b)"""
+        NLE = z3.Function(e.fresh_name("nle"), z3.IntSort(), z3.IntSort(), z3.BoolSort())
+        KW = z3.Function(e.fresh_name("nlek"), z3.IntSort(), z3.IntSort(), z3.IntSort())
+        a, b, k = z3.Ints("q_a q_b q_k")
+        e.assume(z3.ForAll([a, b], z3.Implies(NLE(a, b), z3.And(0 <= KW(a, b), KW(a, b) < nobj, W(b, KW(a, b)) > W(a, KW(a, b)))),
+                           patterns=[NLE(a, b)]))
+        e.assume(z3.ForAll([a, b, k], z3.Implies(z3.And(0 <= k, k < nobj, W(b, k) > W(a, k)), NLE(a, b)),
+                           patterns=[z3.MultiPattern(W(b, k), W(a, k))]))
+        # transitivity of "weakly dominates": c <= b <= a (all coordinates) => c <= a.  Proved once from the two axioms, then assumed.
+        x, y, z_ = (z3.Int(e.fresh_name(n_)) for n_ in ("ta", "tb", "tc"))
+        ok = e.prove("lemma:weak-dominance-is-transitive", z3.Implies(z3.And(z3.Not(NLE(x, y)), z3.Not(NLE(y, z_))), z3.Not(NLE(x, z_))), kind="lemma")
+        if ok:
+            c = z3.Int("q_c")
+            e.assume(z3.ForAll([a, b, c], z3.Implies(z3.And(z3.Not(NLE(a, b)), z3.Not(NLE(b, c))), z3.Not(NLE(a, c))),
+                               patterns=[z3.MultiPattern(NLE(a, b), NLE(b, c))]))
+        return NLE
+
+    def on_havoc(loc, rt):
+        box["rt"] = rt
+
+    def inv(st):
+        R, F, p = st["is_efficient"], st["fmat"], _t(st["pt_ix"])
+        W, NLE, npt, nobj = box["W"], box["NLE"], box["npt"], box["nobj"]
+        d = {}
+        if not (isinstance(R, EArr) and isinstance(F, EArr) and R.ndim == 1 and F.ndim == 2):
+            return {"shape": False}
+        m = _t(R.shape[0])
+        i, j, k, q = z3.Ints("q_i q_j q_k q_q")
+        if st["_phase"] == "preserve":
+            # intermediate assertions about this iteration (proved first, then assumed): what the mask means, where the pivot lands
+            o = box["rt"]._hv_state
+            R0, p0 = o["is_efficient"], _t(o["pt_ix"])
+            m0 = _t(R0.shape[0])
+            g = list(cur().memo["mask_positions"].values())[-1][1]._ghost
+            fpos, rank, mask = g["f"], g["rank"], g["mask"]
+            d["hint:kept=>pivot-or-beats-the-pivot-somewhere [cvc5]"] = _forall(
+                [i], z3.Implies(z3.And(0 <= i, i < m0, mask(i)), z3.Or(i == p0, NLE(R0.at(p0), R0.at(i)))), R0.at(i))
+            d["hint:dropped=>weakly-dominated-by-the-pivot [cvc5]"] = _forall(
+                [i], z3.Implies(z3.And(0 <= i, i < m0, z3.Not(mask(i))), z3.And(i != p0, z3.Not(NLE(R0.at(p0), R0.at(i))))), R0.at(i))
+            d["hint:pivot-kept-at-position-rank"] = z3.And(mask(p0), 0 <= rank(p0), rank(p0) < m, fpos(rank(p0)) == p0, p == rank(p0) + 1)
+            d["hint:positions-before-the-new-cursor-are-old-positions-up-to-the-pivot"] = _forall(
+                [i], z3.Implies(z3.And(0 <= i, i < p), z3.And(0 <= fpos(i), fpos(i) <= p0)), fpos(i))
+            d["hint:positions-are-distinct-kept-old-positions"] = _forall(
+                [i, j], z3.Implies(z3.And(0 <= i, i < m, 0 <= j, j < m, i != j),
+                                   z3.And(fpos(i) != fpos(j), mask(fpos(i)), 0 <= fpos(i), fpos(i) < m0)), fpos(i), fpos(j))
+        d["shape"] = z3.And(_t(F.shape[0]) == m, _t(F.shape[1]) == nobj, 0 <= p, p <= m, m <= npt)
+        d["survivors-are-increasing-indices"] = z3.And(
+            _forall([i], z3.Implies(z3.And(0 <= i, i < m), z3.And(0 <= R.at(i), R.at(i) < npt)), R.at(i)),
+            _forall([i, j], z3.Implies(z3.And(0 <= i, i < j, j < m), R.at(i) < R.at(j)), R.at(i), R.at(j)))
+        d["rows-are-the-survivors'-weighted-points"] = _forall([i, k], z3.Implies(z3.And(0 <= i, i < m, 0 <= k, k < nobj),
+                                                                               F.at(i, k) == W(R.at(i), k)), F.at(i, k),
+                                                              alts=[[W(R.at(i), k)]])
+        d["processed-pivots-are-beaten-somewhere-by-every-other-survivor"] = _forall(
+            [i, j], z3.Implies(z3.And(0 <= i, i < p, 0 <= j, j < m, i != j), NLE(R.at(i), R.at(j))), R.at(i), R.at(j))
+        d["every-point-is-weakly-dominated-by-a-survivor"] = z3.ForAll(
+            [q], z3.Implies(z3.And(0 <= q, q < npt), z3.Exists([i], z3.And(0 <= i, i < m, z3.Not(NLE(R.at(i), q))))))
+        return d
+    inv.on_havoc = on_havoc
+    f = loopcut.Extracted(PARETO, loop_specs={"0": inv})
+    ex = ctx.explorer(timeout_ms=6000)       # every obligation of this unit discharges in well under a second when it holds
+    tagp = "pareto[%s]" % ("mask" if return_mask else "index")
+
+    def thunk():
+        e = cur()
+        npt, nobj = fresh_int("npt", 0), fresh_int("nobj", 1)
+        pts = EArr.fresh("f", (npt, nobj), _np.float64)
+        wt = EArr.fresh("w", (nobj,), _np.float64)
+        WF = z3.Function(e.fresh_name("wpt"), z3.IntSort(), z3.IntSort(), z3.RealSort())      # weighted coordinate of an original point
+        a_, k_ = z3.Ints("q_a q_k")
+        e.assume(z3.ForAll([a_, k_], WF(a_, k_) == pts._fn(a_, k_) * wt._fn(k_), patterns=[WF(a_, k_)]))
+        W = lambda x_, y_: WF(x_, y_)
+        box.update(W=W, npt=npt.t, nobj=nobj.t, NLE=ghosts(e, W, npt.t, nobj.t))
+        NLE = box["NLE"]
+        pts_at0 = pts._at
+        out = f(pts, wt, return_mask)
+        e.prove(tagp + ":frame:input-not-written", pts._at is pts_at0)
+        q, s_ = (z3.Int(e.fresh_name(x)) for x in ("q", "s"))
+        e.assume(z3.And(0 <= q, q < npt.t, 0 <= s_, s_ < npt.t))
+        i = z3.Int("q_i")
+        k = z3.Int("q_k")
+        Rf = box["rt"]._hv_state["is_efficient"]              # the survivor list when the loop is left
+        m = _t(Rf.shape[0])
+        dominates = lambda a_, b_: z3.And(z3.ForAll([k], z3.Implies(z3.And(0 <= k, k < nobj.t), W(a_, k) >= W(b_, k))),
+                                          z3.Exists([k], z3.And(0 <= k, k < nobj.t, W(a_, k) > W(b_, k))))
+        survivor = lambda a_: z3.Exists([i], z3.And(0 <= i, i < m, Rf.at(i) == a_))
+        if return_mask:
+            e.prove(tagp + ":post:shape", z3.And(out.ndim == 1, _t(out.shape[0]) == npt.t))
+            e.prove(tagp + ":post:marked-iff-survivor", out.at(s_) == survivor(s_))
+            marked = lambda a_: out.at(a_)
+        else:
+            e.prove(tagp + ":post:result-is-the-survivor-list", out is Rf)
+            marked = survivor
+            e.prove(tagp + ":post:indices-increasing-and-in-range",
+                    z3.ForAll([i], z3.Implies(z3.And(0 <= i, i < m), z3.And(0 <= Rf.at(i), Rf.at(i) < npt.t,
+                                                                           z3.Implies(i + 1 < m, Rf.at(i) < Rf.at(i + 1))))))
+        # the ghost predicate means what it says (definitional lemmas for arbitrary points a, b):
+        a1, b1 = (z3.Int(e.fresh_name(x)) for x in ("a", "b"))
+        weakly = lambda x_, y_: z3.ForAll([k], z3.Implies(z3.And(0 <= k, k < nobj.t), W(y_, k) <= W(x_, k)))      # y <= x everywhere
+        e.prove(tagp + ":lemma:not-NLE(a,b) <=> b <= a in every coordinate", z3.Not(NLE(a1, b1)) == weakly(a1, b1), kind="lemma")
+        e.prove(tagp + ":lemma:a dominates b <=> b <= a everywhere and a > b somewhere <=> not NLE(a,b) and NLE(b,a) [cvc5]",
+                dominates(a1, b1) == z3.And(z3.Not(NLE(a1, b1)), NLE(b1, a1)), kind="lemma")
+        i1 = z3.Int(e.fresh_name("i"))
+        e.prove(tagp + ":post:sound:a-survivor-is-dominated-by-no-point",
+                z3.Implies(z3.And(0 <= i1, i1 < m), z3.Not(z3.And(z3.Not(NLE(q, Rf.at(i1))), NLE(Rf.at(i1), q)))))
+        e.prove(tagp + ":post:complete:every-point-is-equalled-or-dominated-by-a-survivor",
+                z3.Exists([i], z3.And(0 <= i, i < m, z3.Not(NLE(Rf.at(i), q)))))
+        e.prove(tagp + ":canary:every-point-is-marked", marked(q), expect="fail", timeout_ms=2000)
+        return "ok"
+    with npmodel.patched_numpy():
+        outs = ex.explore(thunk)
+    ctx.absorb(ex)
+    raised = [o for o in outs if isinstance(o, sym.Raised)]
+    ctx.record(tagp + ":noraise", not raised, kind="noraise", detail="; ".join(repr(r) + r.tb[-1500:] for r in raised[:1]))
+    ctx.record(tagp + ":loop-cut", f.loops_cut == set(f.loops), kind="cover", detail=str(f.loops))
+    ctx.record(tagp + ":returns-on-some-path (cover)", any(o == "ok" for o in outs), kind="cover")
+
+
+@unit(P, "loop[is_pareto_efficient, index form: the survivors are exactly a non-dominated cover, for every number of points and objectives]",
+      "A2", targets=[PARETO])
+def u_pareto_loop_index(ctx):
+    _pareto_loop(ctx, False)
+
+
+@unit(P, "loop[is_pareto_efficient, mask form]", "A2", targets=[PARETO])
+def u_pareto_loop_mask(ctx):
+    _pareto_loop(ctx, True)
